@@ -236,10 +236,10 @@ def _derived_mesh(refdom_name, rng, min_quality):
             elif op == 'dict-roundtrip':
                 m = type(m).from_dict(m.to_dict())
             elif op == 'npz-roundtrip':
-                fn = os.path.join(tempfile.mkdtemp(prefix='c03_'), 'm.npz')
-                m.save_npz(fn)
-                m = type(m).load_npz(fn)
-                os.remove(fn)
+                with tempfile.TemporaryDirectory(prefix='c03_') as td:   # removed again: nothing is left under /tmp
+                    fn = os.path.join(td, 'm.npz')
+                    m.save_npz(fn)
+                    m = type(m).load_npz(fn)
             elif op == 'remove_unused_nodes':
                 m = m.remove_unused_nodes()
             elif op == 'remove_duplicate_nodes':
